@@ -159,7 +159,7 @@ func (api *API) Solve(parentApi frontend.API) (Solution, error) {
 
 // Export returns the values of an output variable across all instances
 func (s Solution) Export(v constraint.GkrVariable) []frontend.Variable {
-	return utils.Map(s.permutations.SortedInstances, utils.SliceAt(s.assignments[v]))
+	return utils.Map(s.permutations.InstancesPermutation, utils.SliceAt(s.assignments[v]))
 }
 
 // Verify encodes the verification circuitry for the GKR circuit
